@@ -123,6 +123,8 @@ def rules(ctx):
         Rule("R03.b", "every registered jump target has a frame; unwinder semantics (shared with C03)", 4, _reuse("c03", "r03b")),
         Rule("R03.c", "LIFO; a block's defers run where its end is reached (shared with C03)", 6, _reuse("c03", "r03c")),
         Rule("R02.a", "tag stores/loads move one byte (shared with C02)", 9, _reuse("c02", "r02a")),
+        Rule("R02.b", "copy loops store exactly what their offset advances by and stay inside the object (shared with C02)", 3, _reuse("c02", "r02b")),
+        Rule("R02.c", "aggregate copies are bounded by the destination type's size(), not stride() (shared with C02)", 6, _reuse("c02", "r02c")),
         Rule("R02.e", "every local owns its stack slot (shared with C02)", 2, _reuse("c02", "r02e")),
         Rule("R02.f", "write_all receives a converted value (shared with C02)", 5, _reuse("c02", "r02f")),
         Rule("R02.h", "an assignment's value is complete before the destination is written (shared with C02)", 4, _reuse("c02", "r02h")),
